@@ -13,6 +13,7 @@ import FwdVerif.Lemmas.H2Credit
 import FwdVerif.Lemmas.H2Size
 import FwdVerif.Lemmas.H2Settings
 import FwdVerif.Lemmas.H2CreditRep
+import FwdVerif.Model.C09Gen
 
 namespace FwdVerif
 namespace C09
@@ -524,6 +525,23 @@ example :
 -- `c09_stream_ledger` speaks of such steps too: a SETTINGS frame naming INITIAL_WINDOW_SIZE three times
 example : initCount [(4, 65535), (5, 20000), (4, 70), (3, 9), (4, 100)] = 3 ∧
     initCount (inForce [(4, 65535), (5, 20000), (4, 70), (3, 9), (4, 100)]) = 1 := by
+  decide
+
+/-! ### Tie to the source: protocol constants of `relay.go`
+
+`Model/C09Gen.lean` is regenerated on every run from the constant block of
+`internal/martian/h2/relay.go`.  The windows and the frame-size limit a fresh relay direction starts
+with in the model (`Dir`'s defaults, over which every theorem above is stated) are those constants. -/
+
+theorem c09_generated_defaults_are_model {α : Type} :
+    (({} : Dir α).initWin, ({} : Dir α).connWin, (({} : Dir α).maxFrame : Int))
+      = (C09Gen.defaultInitialWindowSize, C09Gen.defaultInitialWindowSize, C09Gen.initialMaxFrameSize) := by
+  rfl
+
+/-- the values RFC 7540 §6.5.2 / §6.9.2 prescribe -/
+theorem c09_generated_defaults_are_rfc7540 :
+    C09Gen.defaultInitialWindowSize = 65535 ∧ C09Gen.initialMaxFrameSize = 16384 ∧
+    C09Gen.initialMaxHeaderTableSize = 4096 ∧ C09Gen.headersPriorityMetadataLength = 5 := by
   decide
 
 end C09
